@@ -398,6 +398,20 @@ def index_uniform(ctx):
             ctx.violation(c, f"mv[{item!r}] of a multivector storing the number 2.5 next to array coefficients (the result of `arrays + 2.5`) "
                              f"gives {got if got is not None else out!r}; expected the number kept and every array indexed: indexing the result of an "
                              f"operator must equal the operator on the indexed operands", fn)
+    # no array-valued coefficient at all: nothing to index - it must raise (Python's sequence protocol iterates a[0], a[1], ... until
+    # an exception; an object that answers every index never ends list(a), numpy conversions, `ndarray * a`)
+    fn = ctx.func(f"{M}.__getitem__")
+    c = f"{M}.__getitem__#only plain numbers"
+    mv = mv_obj(alg, (1, 6), [1.5, 2])
+    try:
+        out = make_interp(repo).run(f"{M}.__getitem__", [mv, 0])
+    except NoValue as exc:
+        raise Unknown(c, str(exc), fn)
+    if out[0] == "raise":
+        ctx.ok(c, fn, raises=out[1])
+    else:
+        ctx.violation(c, "mv[0] of a multivector whose coefficients are all plain numbers returns a multivector (for every index): iterating "
+                         "such an object (list(mv), numpy's array conversion, `ndarray * mv`) never terminates", fn)
     # __setitem__
     fn = ctx.func(f"{M}.__setitem__")
     for label, indices, want_idx in (("int", 0, (0,)), ("tuple", (1, 2), (1, 2)), ("list (fancy index of one axis)", [0, 2], ([0, 2],))):
